@@ -1068,6 +1068,7 @@ def main(tier, seed, replay=None):
     if replay:
         rp = json.load(open(replay))['replay']
         _init()
+        rp['scenario']['bugs'] = detect_as_is()
         t = run_script(rp['scenario'])
         bad, _ = judge(out, [t], 'replay')
         for (i, clause, at) in bad:
